@@ -56,6 +56,10 @@ static Json::Value genC05(Rng& rng) {
     delays.append((Json::Int64)d);
   }
   plan["delays"] = delays;
+  // time also passes inside a tick (slow plugins): t in "no action before
+  // t+d" is when the chain stopped, not when the tick or the chain began
+  if (rng.chance(0.3))
+    addPluginCosts(rng, plan);
   plan["clock_off"] = (Json::Int64)rng.range(0, 999999999);
   return plan;
 }
